@@ -32,9 +32,7 @@ MUTANTS = {
                                          "            return cast(int, self.assoc.requestor.maximum_length)\n\n        return cast(int, self.assoc.acceptor.maximum_length)"),
     "c27-transition-event-reports-wrong-next-state": ("C27", "pynetdicom/fsm.py", '                    "next_state": next_state,', '                    "next_state": self.current_state,'),
     "c03-truncated-pdu-not-detected": ("C03", "pynetdicom/dul.py", "        if len(bytestream) != 6 + pdu_length:", "        if False and len(bytestream) != 6 + pdu_length:"),
-    "c26-intervention-exception-swallowed": ("C26", "pynetdicom/events.py", "        if isinstance(event, InterventionEvent):
-            raise", "        if isinstance(event, InterventionEvent):
-            return None"),
+    "c26-intervention-exception-swallowed": ("C26", "pynetdicom/events.py", "        if isinstance(event, InterventionEvent):\n            raise", "        if isinstance(event, InterventionEvent):\n            return None"),
     "c25-chunked-receive-loses-last-byte": ("C25", "pynetdicom/dimse_messages.py", "                    self._data_set_file.write(data[1:])", "                    self._data_set_file.write(data[1:-1] if data[0] & 2 and len(data) > 4000 else data[1:])"),
 }
 names = sys.argv[1:] or list(MUTANTS)
